@@ -35,15 +35,15 @@ func (e *Inconclusive) Error() string { return "inconclusive: " + e.Why }
 
 // Session runs one call of the code under test.
 type Session struct {
-	Tape    *tape.Tape
-	Force   bool                            // push a representative word for every draw
-	Choices []uint32                        // prescribed indices for draws 0..len-1 (reduced mod bound)
-	Cont    func(k int, n uint32) uint32    // index for draws beyond Choices; nil = 0
-	Reps    *Reps                           // representative store (Force mode)
-	Draws   []Draw
-	Pre     int // bytes read before the first announcement
-	Panic   interface{}
-	CapHit  bool
+	Tape     *tape.Tape
+	Force    bool                         // push a representative word for every draw
+	Choices  []uint32                     // prescribed indices for draws 0..len-1 (reduced mod bound)
+	Cont     func(k int, n uint32) uint32 // index for draws beyond Choices; nil = 0
+	Reps     *Reps                        // representative store (Force mode)
+	Draws    []Draw
+	Pre      int // bytes read before the first announcement
+	Panic    interface{}
+	CapHit   bool
 	MaxDraws int // abort (CapHit) after this many draws; 0 = 1<<20
 }
 
